@@ -459,6 +459,11 @@ def check(run: Run) -> None:
         from . import c06 as c06_
         R.share(run, "C09.n", c06_, ["C06.j"])
 
+    with run.obligation("C09.o", "K9", "inside a nested sub-graph a node fed from declared boundary input #i and the same node fed from captured outer port #i stay two nodes (the "
+                        "interning key distinguishes captured from declared boundary sources, as it does every other field of a source) (shared with C06.a)"):
+        from . import c06 as c06__
+        R.share(run, "C09.o", c06__, ["C06.a"])
+
 
 def HDRX(cn, tail):
     return "graph_header(graph_context(context),graph.data())." + tail
